@@ -285,12 +285,22 @@ theorem post_bindParams : ∀ (l : List (String × Obj)) {st : St} (_ : Inv st) 
     unfold bindParams
     refine Post.bind (post_valueOf hI (hl p a List.mem_cons_self)) ?_
     rintro pval s hIs _ ⟨rfl, hpv, _⟩
-    refine Post.bind (post_createOrSet hIs hn p hpv true) ?_
-    intro oerr s' hIs' hle ho
+    have hrest : ∀ s1, Inv s1 → s.frames.size ≤ s1.frames.size → Post (do
+        let oerr ← createOrSet nenv p pval true
+        if oerr.isError = true then pure (some oerr) else bindParams nenv rest) s1 OkOpt := by
+      intro s1 hI1 hle1
+      refine Post.bind (post_createOrSet hI1 (by omega) p (okObj_mono hle1 _ hpv) true) ?_
+      intro oerr s' hIs' hle ho
+      split
+      · exact Post.pure hIs' (fun v hv => by cases hv; exact ho)
+      · exact post_bindParams rest hIs' (by omega)
+          (fun p' a' h => okObj_mono (Nat.le_trans hle1 hle) _ (hl p' a' (List.mem_cons_of_mem _ h)))
+    dsimp only
     split
-    · exact Post.pure hIs' (fun v hv => by cases hv; exact ho)
-    · exact post_bindParams rest hIs' (by omega)
-        (fun p' a' h => okObj_mono hle _ (hl p' a' (List.mem_cons_of_mem _ h)))
+    · refine Post.bind (post_triggerNoCache hIs hn) ?_
+      intro _ s1 hI1 hle1 _
+      exact hrest s1 hI1 hle1
+    · exact hrest s hIs (Nat.le_refl _)
 
 theorem splitArgs_ok {n : Nat} (f : FuncVal) {args : List Obj} (h : okList n args = true) :
     okList n (splitArgs f args).2.1 = true ∧ okList n (splitArgs f args).2.2 = true := by
